@@ -206,6 +206,22 @@ func (e *engine) setCrash(s string) {
 // how long the service must be seen at rest before a step is considered complete
 const quietWindow = 250 * time.Microsecond
 
+// how long a single step may take before the service is declared stuck.  Generous on purpose:
+// the harness shares the machine with other checks; a step normally takes well under a millisecond,
+// and a service that really hangs costs this much at most eight times (see the crash cap)
+const stepDeadline = 25 * time.Second
+
+// schedBarrier lets the Go scheduler run whatever is runnable: n round trips through a freshly
+// started goroutine.  Its duration grows with the load on the machine, which makes "seen at rest
+// for k polls" mean the same thing on an idle and on a busy machine (a fixed sleep would not).
+func schedBarrier(n int) {
+	for i := 0; i < n; i++ {
+		done := make(chan struct{})
+		go func() { close(done) }()
+		<-done
+	}
+}
+
 // the protocol spoken in a scenario of kind svc
 func proto(svc int) int {
 	if svc == SMTP2 {
@@ -296,7 +312,7 @@ func (e *engine) open(id int) {
 // the server wrote has reached the client side, closures have been noticed, and at least
 // wantEvents events have been recorded; observed on several consecutive polls.
 func (e *engine) settle(wantEvents int) bool {
-	deadline := time.Now().Add(3 * time.Second)
+	deadline := time.Now().Add(stepDeadline)
 	stable := 0
 	var since time.Time
 	lastEv := -1
@@ -336,7 +352,7 @@ func (e *engine) settle(wantEvents int) bool {
 		if now.After(deadline) {
 			return false
 		}
-		runtime.Gosched()
+		schedBarrier(1)
 	}
 }
 
@@ -442,12 +458,12 @@ func (e *engine) step(k int, kind string, conn int, p []byte, events int) (OStep
 			skipped = true
 			break
 		}
-		s.cc.SetWriteDeadline(time.Now().Add(2 * time.Second))
+		s.cc.SetWriteDeadline(time.Now().Add(stepDeadline))
 		n, _ := s.cc.Write(p)
 		s.sent += int64(n)
 		// the server side has taken the bytes out of the pipe; wait until its Read returned
 		t0 := time.Now()
-		for atomic.LoadInt64(&s.sc.consumed) < s.sent && time.Since(t0) < 2*time.Second {
+		for atomic.LoadInt64(&s.sc.consumed) < s.sent && time.Since(t0) < stepDeadline {
 			runtime.Gosched()
 		}
 		want += events // events sent by a pump goroutine, after the handler is back in Read
@@ -457,7 +473,7 @@ func (e *engine) step(k int, kind string, conn int, p []byte, events int) (OStep
 		c := e.crash
 		e.crashMu.Unlock()
 		if c == "" {
-			c = fmt.Sprintf("step %d (%s conn %d): the service did not come to rest within 3 s (blocked readers %d, running handlers %d, events %d, expected at least %d)",
+			c = fmt.Sprintf("step %d (%s conn %d): the service did not come to rest within 25 s (blocked readers %d, running handlers %d, events %d, expected at least %d)",
 				k, kind, conn, atomic.LoadInt32(&e.blocked), atomic.LoadInt32(&e.live), e.rec.count(), want)
 		}
 		return OStep{}, c
@@ -553,7 +569,7 @@ func (u *udpRunner) datagram(k, conn int, p []byte) (OStep, string) {
 		if cr != "" {
 			return st, cr
 		}
-	case <-time.After(5 * time.Second):
+	case <-time.After(stepDeadline):
 		return st, fmt.Sprintf("step %d: %s Handle did not return", k, svcName[u.svc])
 	}
 	var all []byte
